@@ -38,7 +38,29 @@ def build_b1():
     _build(B1_DIR, B1_TARGET, B1_BIN, "--cfg fclones_verif_shuttle")
 
 
+def write_shadow_manifest():
+    """/verif/.build/fclones-shadow/Cargo.toml: the fclones package with its own dependencies,
+    `[lib] path` pointing at the sources under test, plus the shuttle dependency.  The repository's
+    Cargo.toml and Cargo.lock stay untouched."""
+    import re
+    repo = core.REPO
+    src = open(os.path.join(repo, "fclones", "Cargo.toml")).read()
+    src = re.sub(r"\n\[dev-dependencies\][^\[]*", "\n", src)
+    src = src.replace('[dependencies]\n', '[dependencies]\nshuttle = "0.9.3"\n', 1)
+    src = src.replace('edition = "2021"\n', 'edition = "2021"\nautobins = false\nautotests = false\nautoexamples = false\nautobenches = false\n', 1)
+    src = src.replace('readme = "README.md"\n', '')
+    src += '\n[lib]\nname = "fclones"\npath = "%s/fclones/src/lib.rs"\n\n[workspace]\n' % repo
+    d = os.path.join(core.BUILD, "fclones-shadow")
+    os.makedirs(d, exist_ok=True)
+    path = os.path.join(d, "Cargo.toml")
+    old = open(path).read() if os.path.exists(path) else None
+    if old != src:
+        open(path, "w").write(src)
+
+
 def build_b2():
+    os.makedirs(core.BUILD, exist_ok=True)
+    write_shadow_manifest()
     _build(B2_DIR, B2_TARGET, B2_BIN, "--cfg fclones_verif --cfg fclones_verif_shuttle")
 
 
